@@ -43,6 +43,9 @@ CHECKS = {
  "C15": ("exploration", "runtime monitor: the Go runtime's own call stack, captured on the same source line as every logging call, is the ground truth for caller and stack annotations",
          "Every logging method of *zap.Logger and *zap.SugaredLogger (list checked by reflection; a method without a row exits 3), the std-log bridge (NewStdLog, NewStdLogAt, RedirectStdLog(At) incl. package-level log functions) and the slog handler are called through random Sugar/Desugar/With/WithLazy/Named/WithOptions chains, 0-8 wrapper frames with AddCallerSkip(k), call-stack depths on both sides of the pooled 64-frame capacity, every stack-trace threshold and caller on/off: caller must equal runtime frame k of the call site, the stack must be the complete runtime chain from that frame, attached exactly at the configured levels.",
          "Trailing runtime.* frames of the stack are a don't-care. Open known finding D16 (std-log paths through log.(*Logger).Output).", "3/C15"),
+ "C19": ("fault_enumeration", "runtime fault injection observed from the boundary: counting custom sinks registered under fresh schemes, the /proc/self/fd table (GC held off so finalizers cannot hide a leak), the sandbox directory, and the standard logger's flags/prefix/writer",
+         "Open over path lists of 0-5 entries with every failing subset (failing custom sinks, unopenable files, directories, unknown schemes, unparsable URLs); Config.Build over every error path (bad output / error-output path, unknown or empty encoding, missing time encoder, missing level) combined with otherwise valid sink lists; RedirectStdLogAt / NewStdLogAt at all 256 levels under random prior flags, prefix and writer; file URLs assembled from components (scheme case, host, user info, port, query, fragment, percent-escapes) classified without net/url; sink scheme and encoder names. Error returns must leave every opened sink closed once and no new descriptor; successes must deliver every write to every destination; exactly the URL's path is opened.",
+         "Empty query/fragment/port, an empty user-info marker and host LOCALHOST are recorded don't-care zones. Descriptors that vanish are never a finding; only descriptors pointing into the case's sandbox are attributed.", "3/C19"),
 }
 NOT_YET = {}
 props = [json.loads(l) for l in open(os.path.join(V, "properties.jsonl"))]
